@@ -49,3 +49,25 @@ func VerifValueMapShape(m *ValueMap) string {
 	}
 	return fmt.Sprintf("read{%s} amended=%v %s misses=%d", strings.Join(rk, ","), read.amended, d, m.misses)
 }
+
+// VerifSpan is the plain-data form of a BufferSpan (Ret given as the string its ToString yields).
+type VerifSpan struct {
+	Begin, End           int
+	Ret, Text, Expr, Tag string
+	TextOnly             bool
+	ExprSuffix           string
+}
+
+// VerifMakeDetail runs makeDetailStr on an explicit (source, parsed offset, spans, result string) tuple.
+func VerifMakeDetail(src string, offset int, spans []VerifSpan, ret string) string {
+	ctx := NewVM()
+	ctx.parser = &parser{data: []byte(src)}
+	ctx.parser.pt.offset = offset
+	ctx.Ret = NewStrVal(ret)
+	var ds []BufferSpan
+	for _, s := range spans {
+		ds = append(ds, BufferSpan{Begin: IntType(s.Begin), End: IntType(s.End), Ret: NewStrVal(s.Ret), Text: s.Text,
+			Expr: s.Expr, Tag: s.Tag, TextOnly: s.TextOnly, ExprSuffix: s.ExprSuffix})
+	}
+	return ctx.makeDetailStr(ds)
+}
